@@ -3,7 +3,7 @@ CONSTANTS
   Seed = 1
   NSample = 3000
   MaxLen = 2
-  PairN = 10
+  PairN = 12
   NRandStr = 40
   SynFolN = 4
   SynLongFolN = 1
